@@ -56,7 +56,7 @@ def run(tier):
     rlog = os.path.join(work, "race")
     rtr = os.path.join(work, "traces-race")
     dr = vlib.drv_stats(vlib.run_driver(drv_race, ["ctree", "conc", "-n", str(T["race_n"]), "-out", rtr, "-shards", str(T["shards"])],
-                                        env={"GORACE": "log_path=%s halt_on_error=0" % rlog}, timeout=3000))
+                                        env={"GORACE": "log_path=%s halt_on_error=0 exitcode=0" % rlog}, timeout=3000))
     races = racelib.parse_reports(rlog)
     for sig, cnt in sorted(races.items()):
         outcome.report(sig, dict(family="race", signature=sig, count=cnt, note="Go race detector report while running 'verifdrv-race ctree conc'"))
